@@ -22,7 +22,8 @@ EXPLANATION = (
     ' Also: (R0) parent repointing walks each survivor independently (no state shared between survivors).'
     " (R8) a file delete keeps everything else: every existing manifest with surviving files reaches final_manifests.append (path query with the 'no survivors' edge as the only bypass); R6 also ties the trim bound to the properties of the metadata being written."
     ' (R9) snapshot_log producers keep commit order (C09.R10); (R10) every create_manifest_file(existing_files=X) site carries DataFiles whose added_snapshot_id / sequence_number come from their source; (R11) who-may-delete census (C09.R3).'
-    ' R1 also decides, by scenario, that retention re-adds the current snapshot whenever it is missing from the kept set.')
+    ' R1 also decides, by scenario, that retention re-adds the current snapshot whenever it is missing from the kept set.'
+    ' (R15) a delete reads EVERY manifest of the base snapshot: a manifest is carried over unchanged only after read_manifest_file in the same iteration.')
 NOT_DECIDED = ("the invariants over operation histories (parents are true ancestors, log order, retention with out-of-order "
                "timestamps) at run time")
 
@@ -125,6 +126,40 @@ def check(ctx: Ctx) -> None:
     ctx.shared(c08_r1, "C08.R1", "C15.R13", "the conditional pointer write is keyed to the validated version")
     from .c19 import polling_break_double_check
     polling_break_double_check(ctx, "C15.R14")
+    delete_filters_every_manifest(ctx)
+
+
+def delete_filters_every_manifest(ctx: Ctx, rid: str = "C15.R15") -> None:
+    ctx.rule(rid, "a delete looks into EVERY manifest of the base snapshot: in the delete branch of _commit_file_ops a manifest is "
+             "carried over unchanged only after its entries were read (read_manifest_file) in this very iteration - no early exit "
+             "\"once all paths were found\": a file registered in two manifests (re-submitted append, two spellings) would stay "
+             "listed by the committed delete", 1)
+    f = ctx.fn("transaction.Transaction._commit_file_ops")
+    g = ctx.cfg(f)
+    reads = [n for n in g.calls() if n.id in g.reachable() and any(t.name == "read_manifest_file" for t in ctx.eff.callees(f, n))]
+    loops = [lp for lp in g.nodes if lp.kind == "loop" and isinstance(lp.ast, ast.For) and any(
+        any(fr.kind == "loop" and fr.node is lp.ast for fr in r.frames) for r in reads)]
+    if not reads or not loops:
+        raise AnalysisError("the manifest-filtering loop of _commit_file_ops was not found")
+    n_ = 0
+    for lp in loops:
+        tv = {x.id for x in ast.walk(lp.ast.target) if isinstance(x, ast.Name)}  # type: ignore[union-attr]
+        body = edge_target(g, lp, "true")
+        inner_reads = [r.id for r in reads if any(fr.kind == "loop" and fr.node is lp.ast for fr in r.frames)]
+        for a in g.calls():
+            if not (isinstance(a.ast, ast.Call) and isinstance(a.ast.func, ast.Attribute) and a.ast.func.attr in ("append", "add", "extend")
+                    and a.ast.args and any(fr.kind == "loop" and fr.node is lp.ast for fr in a.frames)):
+                continue
+            if not (names_in(a.ast.args[0]) & tv):
+                continue  # a rewritten manifest, not the loop's own
+            n_ += 1
+            w = find_path(g, body, [a.id], avoid=inner_reads, labels=NORMAL) if body is not None and body not in inner_reads else None
+            ctx.ob(rid, f, "a manifest is carried over only after it was read", a, w is None,
+                   "every path of the iteration to the carry-over passes read_manifest_file" if w is None else
+                   "a manifest can be carried into the new snapshot without being looked into: an entry for a deleted file inside it "
+                   "survives the delete", witness=ctx.path_witness(f, w))
+    if n_ == 0:
+        raise AnalysisError("no carry-over of an unchanged manifest found in the delete loop")
 
 
 def carried_keep_provenance(ctx: Ctx, rid: str = "C15.R10") -> None:
